@@ -437,6 +437,11 @@ func (g *Gen) Next() *Op {
 	case UpResume, UpWrite, UpClose, UpCommit, UpCancel, UpSize:
 		op.Handle = g.live[g.C.Int("up.h", len(g.live))]
 		u := g.M.Uploads[op.Handle]
+		if u == nil {
+			// the model never saw this upload start (it was refused): forget the handle
+			g.dropLive(op.Handle)
+			return g.Next()
+		}
 		if g.Cfg.HTTPSafe {
 			// A buffering client loses unflushed data when a writer is dropped, and reports
 			// a stale offset only when it flushes: over HTTP writers are used in the
